@@ -105,6 +105,8 @@ def run(r):
     for k in range(350 if r.tier == "quick" else 7000):
         notes = gen_notes(rng, rng.randrange(1, 6), channels=(0, 1), pitches=(60, 62, 65), grid=6, max_on=30, durs=(1, 2, 4))
         items = notes_to_rel(notes, [(0, ('ts', 4, 4))] if rng.random() < 0.5 else [], rng.choice((0, 6)))
+        if k % 11 == 10:
+            items = [] if k % 2 else [12]          # a sequence without any message / with a rest only
         route = routes[k % len(routes)]
         seed = rng.randrange(10 ** 9)
         r.case(route, [items, seed]); check(r, items, route, seed)
